@@ -299,6 +299,43 @@ Theorem C02_transfer_sql2loss : forall scale a w y lam v : Qc,
 Proof. exact sql2loss_transfer. Qed.
 Print Assumptions C02_transfer_sql2loss.
 
+(** ** The generic Loss unit as the code computes it: f.prox(v - y, scale*lam) + y is a prox
+    of x |-> scale*f(x - y) for EVERY f with a prox (translation + scaling rule), even or not *)
+Theorem C02_Loss_code_entry :
+  forall (dom : R -> Prop) (f : R -> R) (fprox : R -> R -> R) (scale y lam v : R),
+    0 < scale -> 0 < lam ->
+    (forall l x, 0 < l -> @IsProx RSpace dom f l x (fprox l x)) ->
+    @IsProx RSpace (fun x => dom (x - y)) (fun x => scale * f (x - y)) lam v
+      (loss_code fprox scale y lam v).
+Proof. exact loss_code_prox. Qed.
+Print Assumptions C02_Loss_code_entry.
+
+(** a non-even f: Loss(y, f = NonNegativeIndicator) is the constraint x >= y, prox max(v, y) *)
+Theorem C02_Loss_over_NonNegativeIndicator_entry :
+  forall scale y lam v : R, 0 < scale -> 0 < lam ->
+    @IsProx RSpace (fun x => 0 <= x - y) (fun x => scale * 0) lam v
+      (loss_code (fun _ => nonneg_code) scale y lam v).
+Proof. exact loss_nonneg_code_prox. Qed.
+Print Assumptions C02_Loss_over_NonNegativeIndicator_entry.
+
+(** the reflected form y - f.prox(y - v, scale*lam) agrees with the code's form exactly when
+    f.prox is odd (all even f) ... *)
+Theorem C02_Loss_reflected_form_agrees_for_odd_prox :
+  forall (fprox : R -> R -> R) (scale y lam v : R),
+    (forall l x, fprox l (- x) = - fprox l x) ->
+    loss_reflected_code fprox scale y lam v = loss_code fprox scale y lam v.
+Proof. exact loss_reflected_odd. Qed.
+Print Assumptions C02_Loss_reflected_form_agrees_for_odd_prox.
+
+(** ... and is not a prox of scale*f(x - y) for a non-even f (witness: NonNegativeIndicator,
+    y = 0, v = -1: it returns -1, outside the domain x >= y) *)
+Theorem C02_Loss_reflected_form_refuted :
+  exists scale y lam v : R, 0 < scale /\ 0 < lam /\
+    ~ @IsProx RSpace (fun x => 0 <= x - y) (fun x => scale * 0) lam v
+        (loss_reflected_code (fun _ => nonneg_code) scale y lam v).
+Proof. exact loss_reflected_refuted. Qed.
+Print Assumptions C02_Loss_reflected_form_refuted.
+
 (** ** Non-vacuity *)
 (** the metric-projection hypotheses are satisfiable (C = {0} in R, proj = 0) *)
 Example C02_projection_hypotheses_satisfiable :
@@ -313,6 +350,11 @@ Proof. unfold cubic_res, sqabs_p, sqabs_q, nnd. rsimp. rcases; lra. Qed.
 (** the executable model computes (Qc): soft threshold of 5/4 at 1/2 is 3/4 *)
 Example C02_model_computes : l1_code (Q2Qc (1 # 2)) (Q2Qc (5 # 4)) = Q2Qc (3 # 4).
 Proof. vm_compute. reflexivity. Qed.
+(** the two Loss forms differ at Qc for a non-even f: y = 0, v = -1, scale = 2, lam = 1 *)
+Example C02_Loss_forms_differ :
+  loss_code (fun _ => nonneg_code) (Q2Qc 2) (Q2Qc 0) (Q2Qc 1) (Q2Qc (-1)) = Q2Qc 0 /\
+  loss_reflected_code (fun _ => nonneg_code) (Q2Qc 2) (Q2Qc 0) (Q2Qc 1) (Q2Qc (-1)) = Q2Qc (-1).
+Proof. vm_compute. split; reflexivity. Qed.
 
 (** ** Tie to the source.  The left-hand sides (modules SVGen.C02_L0 ... C02_Ball) are the prox
     bodies of scico/functional/_norm.py and _indicator.py as regenerated by tools/py2coq.py on
